@@ -34,6 +34,57 @@ class PoolObj:
         return {"serial": self.serial}
 
 
+class PoolObjLen(PoolObj):
+    """a container-like pool object that is always empty: falsy through __len__"""
+
+    def __len__(self):
+        return 0
+
+
+class PoolObjBool(PoolObj):
+    """a pool object with an explicit truth value: False"""
+
+    def __bool__(self):
+        return False
+
+
+class PoolObjState(PoolObj):
+    """a container-like pool object whose length follows its state: it is empty (falsy) before its first call and
+    after every second one"""
+
+    def __init__(self, serial, log):
+        PoolObj.__init__(self, serial, log)
+        self._n = 0
+
+    @api.expose
+    def who(self):
+        self._n = 1 - self._n
+        return PoolObj.who(self)
+
+    def __len__(self):
+        return self._n
+
+
+# (the subclasses are not class-exposed: that would publish __len__ / __bool__ as remote methods; who() is inherited exposed)
+SHAPES = {"plain": PoolObj, "len0": PoolObjLen, "bool0": PoolObjBool, "state": PoolObjState}
+
+
+@api.expose
+class Made:
+    """what Dispenser.make() creates, registers without an id and hands out; lives outside the 3-slot pool"""
+
+    def __init__(self, tag):
+        self.tag = tag
+        self.calls = 0
+
+    def who(self):
+        self.calls += 1
+        return ["made", self.tag]
+
+    def __getstate__(self):
+        return {"tag": self.tag}
+
+
 @api.expose
 class ClsA:
     def who(self):
@@ -54,11 +105,20 @@ class Dispenser:
     """permanent object; give(k) returns pool object k (looked up in the dict shared with the scenario, so the
     dispenser never holds a reference of its own)"""
 
-    def __init__(self, pool):
+    def __init__(self, pool, made=None):
         self._pool = pool
+        self._made = made if made is not None else {}    # tag -> Made, shared with the scenario
 
     def give(self, k):
         return self._pool[k]
+
+    def make(self, tag, mode):
+        """the everyday factory pattern: create an object, register it WITHOUT an id, hand it out - as the object
+        (it travels as a proxy) or as its uri"""
+        obj = Made(tag)
+        self._made[tag] = obj
+        uri = self._pyroDaemon.register(obj)
+        return obj if mode == "obj" else str(uri)
 
 
 def _to_dict(o):
@@ -69,10 +129,26 @@ def _from_dict(classname, d):
     return ["byvalue", d["serial"]]
 
 
+MADE_TAG = "sim.worlds.registry_objs.Made"
+
+
+def _made_to_dict(o):
+    return {"__class__": MADE_TAG, "tag": o.tag}
+
+
+def _made_from_dict(classname, d):
+    return ["byvalue-made", d["tag"]]
+
+
 assert PoolObj.__module__ + "." + PoolObj.__name__ == TAG, "module imported under an unexpected name: %s" % PoolObj.__module__
 assert "__" not in TAG
 SerializerBase.register_class_to_dict(PoolObj, _to_dict, serpent_too=False)
 SerializerBase.register_dict_to_class(TAG, _from_dict)
+for _c in SHAPES.values():      # serpent's default class record carries the subclass's own name
+    SerializerBase.register_dict_to_class(_c.__module__ + "." + _c.__name__, _from_dict)
+assert Made.__module__ + "." + Made.__name__ == MADE_TAG
+SerializerBase.register_class_to_dict(Made, _made_to_dict, serpent_too=False)
+SerializerBase.register_dict_to_class(MADE_TAG, _made_from_dict)
 
 
 def reset_class_marks():
